@@ -399,6 +399,16 @@ def fam_core(rng, tier):
                                {"a": "eval_pr", "p": 2}, {"a": "eval_pr", "p": 2}, {"a": "eval_pr", "p": 2},
                                {"a": "eval_pr", "p": 2}, {"a": "gate", "p": 2}, {"a": "finish_queue"},
                                {"a": "eval_pr", "p": 2}], core=True))
+    # C06: a pull request on a stabilization branch: the source tip and w/<x.y>/... carry the same major.minor;
+    # the source tip is not green while every w/ branch is - the gate must hold (seeded C06_r4)
+    for mode in ('queue', 'noqueue'):
+        for red in ('FAILED', 'INPROGRESS'):
+            out.append(dict(id='core/stab-red-source/%s/%s' % (mode, red), world=world('D3s', mode),
+                            steps=[open_pr(1, 'stabilization/5.1.0'), {"a": "eval_pr", "p": 1}] + approve(1) +
+                                  [{"a": "eval_pr", "p": 1},
+                                   {"a": "report", "ref": "w:1:5.1", "status": "SUCCESSFUL"},
+                                   {"a": "report", "ref": "src:1", "status": red},
+                                   {"a": "eval_pr", "p": 1}, {"a": "eval_pr", "p": 1}], core=True))
     # C20/C05: a hotfix release between two hotfix pull requests: the branch then owns two queues (q/4.2.17.1 drained,
     # q/4.2.17.2 with a queued pull request); delete_branch must refuse, the queued one must still be merged
     out.append(dict(id='core/admin/hotfix-two-queues', world=world('H3h', 'queue'),
